@@ -27,7 +27,7 @@ CALLS = {'buck': ('buck_call', 4), 'buck.deriv': ('buck_deriv', 4), 'buck.deriv2
 
 def poly_method(repo, meth, coqname):
     """_polynomial.<meth>:   r, coefs = self._split_args(args)
-                             v = [EXPR for (i,c) in enumerate(coefs)][k:]      ([k:] optional)
+                             v = [EXPR for (i,c) in enumerate(coefs) if i >= k]      (condition optional)
                              return sum(v) | sum([0]+v)"""
     fn = load_function(repo, PF, '_polynomial.' + meth)
     if not fn.args.vararg or fn.args.vararg.arg != 'args' or [a.arg for a in fn.args.args] != ['self']:
@@ -52,8 +52,18 @@ def poly_method(repo, meth, coqname):
         val = val.value
     if not (isinstance(val, ast.ListComp) and len(val.generators) == 1): raise Refuse('_polynomial.%s: comprehension' % meth)
     g = val.generators[0]
-    if g.ifs or ast.unparse(g.target) != '(i, c)' or ast.unparse(g.iter) != 'enumerate(coefs)':
+    if ast.unparse(g.target) != '(i, c)' or ast.unparse(g.iter) != 'enumerate(coefs)':
         raise Refuse('_polynomial.%s: generator' % meth)
+    if g.ifs:
+        # [EXPR for (i, c) in enumerate(coefs) if i >= k] : the first k terms are not evaluated at all (fix c98f76d; the earlier
+        # form built them and sliced them off, so 0*r**-1 was evaluated at r = 0)
+        c = g.ifs[0]
+        if not (len(g.ifs) == 1 and k == 0 and isinstance(c, ast.Compare) and len(c.ops) == 1 and isinstance(c.ops[0], ast.GtE) and isinstance(c.left, ast.Name)
+                and c.left.id == 'i' and isinstance(c.comparators[0], ast.Constant) and isinstance(c.comparators[0].value, int) and c.comparators[0].value >= 0):
+            raise Refuse('_polynomial.%s: condition of the comprehension' % meth)
+        k = c.comparators[0].value
+    elif k > 0:
+        raise Refuse('_polynomial.%s: the leading terms are built and sliced off: they are evaluated (0*r**-1 at r = 0 divides by zero)' % meth)
     ret = ast.unparse(body[2])
     if ret not in ('return sum(v)', 'return sum([0] + v)'): raise Refuse('_polynomial.%s: return' % meth)
     # translate EXPR with i : nat (as INR i), c : R; r**float(i - m) -> r ^ (i - m) (nat subtraction; needs m <= k)
